@@ -71,3 +71,11 @@ func (c *Ctx) countFaults(out *Outcome) {
 		}
 	}
 }
+
+// failLateEffects: a call that returned nil must be finished; writes, callbacks or
+// mutating disk operations after the return mean the result was not complete at return.
+func (c *Ctx) failLateEffects(id string, op Op, out *Outcome) {
+	if out.LateEffects != "" {
+		c.Failf(id+":effects-after-nil-return:"+op.Kind, "%s returned nil and afterwards its goroutines still performed %s", op, out.LateEffects)
+	}
+}
